@@ -146,7 +146,7 @@ func PathsJail(args []string) {
 			if n%*shards != *shard {
 				continue
 			}
-			if !r.Reached {
+			if !r.Reached || r.Field == "offer" { // the offer's root name is the binary-level driver's case
 				continue
 			}
 			if *sample > 1 && (n / *shards)%*sample != 0 {
